@@ -136,6 +136,21 @@ def make_pair(rng, kind, P):
                 ([NonlinearConstraint(lambda y: g(up(y)), -INF, 0.0)] if g is not None else [])
         return (lambda: solve(f, x0, Bounds(lbf, ubf), consA, opts, ident),
                 lambda: solve(lambda y: f(up(y)), x0[~fixed], Bounds(lb[~fixed], ub[~fixed]), consB, opts, up))
+    if kind == "nan-limits":
+        # an absent limit written as NaN instead of +-inf, in the bounds, in a linear and in a nonlinear constraint
+        free_l, free_u = rng.random(n) < 0.4, rng.random(n) < 0.4
+        mk = lambda none_l, none_u: Bounds(np.where(free_l, none_l, lb), np.where(free_u, none_u, ub))
+        if g is not None and rng.random() < 0.5:
+            gv = lambda x: np.array([g(x), -g(x) - 4.0])            # vector valued: limits [-inf, 0] and [-inf, 0]
+            nlA, nlB = [NonlinearConstraint(gv, [-INF, -INF], [0.0, 0.0])], [NonlinearConstraint(gv, [np.nan, np.nan], [0.0, 0.0])]
+        elif g is not None:
+            nlA, nlB = [NonlinearConstraint(g, -INF, 0.0)], [NonlinearConstraint(g, np.nan, 0.0)]
+        else:
+            nlA = nlB = []
+        linA = [LinearConstraint(A, -INF, b)] if len(b) else []
+        linB = [LinearConstraint(A, np.full(len(b), np.nan), b)] if len(b) else []
+        return (lambda: solve(f, x0, mk(-INF, INF), linA + nlA, opts, ident),
+                lambda: solve(f, x0, mk(np.nan, np.nan), linB + nlB, opts, ident))
     if kind == "scale":
         factor, shift = 0.5 * (ub - lb), 0.5 * (ub + lb)
         to_x = lambda z: np.minimum(np.maximum(z * factor + shift, lb), ub)
@@ -148,7 +163,7 @@ def make_pair(rng, kind, P):
     raise ValueError(kind)
 
 
-KINDS = ["bounds-form", "dict", "two-sided-linear", "two-sided-nonlinear", "regroup", "regroup-mixed", "fixed", "scale"]
+KINDS = ["nan-limits", "bounds-form", "dict", "two-sided-linear", "two-sided-nonlinear", "regroup", "regroup-mixed", "fixed", "scale"]
 
 
 def residual_check(rng, P):
@@ -176,7 +191,7 @@ def residual_check(rng, P):
 
 def run(chk, rng, replay=None):
     ok, info = proof_stage(chk, MODULES)
-    n_pairs = 48 if chk.tier == "quick" else 1600
+    n_pairs = 90 if chk.tier == "quick" else 1600
     fails, done, skipped = [], {k: 0 for k in KINDS}, 0
     res_checked = 0
     import random
